@@ -31,6 +31,13 @@ func installFdSeam() {
 		if l == nil {
 			return nil, false
 		}
+		if l.FailWrites > 0 {
+			// injected fault: write(2) on the descriptor fails with EAGAIN/ENOBUFS
+			l.FailWrites--
+			l.w.Faults["link_write_error"]++
+			l.w.Log.Byte(0xfe)
+			return tcpip.ErrWouldBlock, true
+		}
 		frame := append(append([]byte(nil), b1...), b2...)
 		l.emitEthernet(frame)
 		return nil, true
